@@ -317,15 +317,27 @@ impl Pattern {
         let p_question_mark =
             |s| map(tag("?"), |_| "[^".to_string() + escaped_sep.as_str() + "]")(s);
 
+        // The members of a character set. An escaped character, e.g. `\]`, is a member
+        // and does not end the set.
+        let p_set_members = |s| {
+            map(
+                many0(alt((
+                    map(tuple((tag("\\"), anychar)), |(_, c)| vec!['\\', c]),
+                    map(none_of("]"), |c| vec![c]),
+                ))),
+                |members: Vec<Vec<char>>| members.concat(),
+            )(s)
+        };
+
         // [ characters ] -> [ characters ]
         let p_neg_character_set = map(
-            tuple((tag("[!"), many0(none_of("]")), tag("]"))),
+            tuple((tag("[!"), p_set_members, tag("]"))),
             |(_, characters, _)| "[^".to_string() + &Self::escape_character_set(&characters) + "]",
         );
 
         // [ characters ] -> [ characters ]
         let p_character_set = map(
-            tuple((tag("["), many0(none_of("]")), tag("]"))),
+            tuple((tag("["), p_set_members, tag("]"))),
             |(_, characters, _)| "[".to_string() + &Self::escape_character_set(&characters) + "]",
         );
 
